@@ -137,10 +137,18 @@ func nativeReplay(repoDir, harnessDir string, cases []replayCase, dropFiles map[
 	var lastLog string
 	for attempt := 0; attempt < len(cases)+2 && start < len(cases); attempt++ {
 		os.Remove(outPath)
-		cmd := exec.Command("bash", "-c", "ulimit -v 12000000; exec go test -tags verif -vet=off -count=1 -timeout 20m -overlay "+ovPath+" -run '^TestVerifReplay$' .")
+		race := ""
+		limit := "ulimit -v 12000000; "
+		for _, c := range cases {
+			if strings.Contains(c.Harness, "_C19_") {
+				// shared-reader harnesses: two goroutines under the race detector
+				race, limit = "-race ", ""
+			}
+		}
+		cmd := exec.Command("bash", "-c", limit+"exec go test "+race+"-tags verif -vet=off -count=1 -timeout 20m -overlay "+ovPath+" -run '^TestVerifReplay$' .")
 		cmd.Dir = repoDir
 		cmd.Env = append(os.Environ(), "GOFLAGS=-mod=mod", "GOPROXY=off", "GOSUMDB=off", "GOTOOLCHAIN=local",
-			"VERIF_REPLAY_IN="+inPath, "VERIF_REPLAY_OUT="+outPath, fmt.Sprintf("VERIF_REPLAY_START=%d", start))
+			"GORACE=halt_on_error=1 exitcode=66", "VERIF_REPLAY_IN="+inPath, "VERIF_REPLAY_OUT="+outPath, fmt.Sprintf("VERIF_REPLAY_START=%d", start))
 		var outb bytes.Buffer
 		cmd.Stdout, cmd.Stderr = &outb, &outb
 		t0 := time.Now()
@@ -172,7 +180,9 @@ func nativeReplay(repoDir, harnessDir string, cases []replayCase, dropFiles map[
 		if started >= 0 && !have[started] {
 			// the process died inside this case
 			kind := "crash"
-			if strings.Contains(lastLog, "out of memory") || strings.Contains(lastLog, "cannot allocate memory") {
+			if strings.Contains(lastLog, "DATA RACE") {
+				kind = "race"
+			} else if strings.Contains(lastLog, "out of memory") || strings.Contains(lastLog, "cannot allocate memory") {
 				kind = "alloc"
 			} else if strings.Contains(lastLog, "stack overflow") || strings.Contains(lastLog, "goroutine stack exceeds") {
 				kind = "hang"
@@ -264,6 +274,9 @@ func confirms(v *Violation, r *replayResult) bool {
 		kindOK := r.Kind == v.Label || (v.Label == "explicit" && r.Kind == "logpanic") || (v.Label == "logpanic" && r.Kind == "explicit")
 		return kindOK && r.Pos == base
 	case "monitor":
+		if v.Label == "shared-write" {
+			return r.Outcome == "fatal" && r.Kind == "race"
+		}
 		for _, mh := range r.Monitors {
 			if strings.HasPrefix(mh, v.Label) {
 				return true
